@@ -1085,7 +1085,8 @@ def value_attr(I, obj, name):
             return np_("shape")(obj)
         if name == "T":
             if obj.items and isinstance(obj.items[0], Vec):
-                return Vec(Vec(r.items[j] for r in obj.items) for j in range(len(obj.items[0])))
+                from .symval import TransposeView
+                return TransposeView(obj)
             return obj
         if name == "copy":
             return Builtin(name, lambda: Vec(list(obj.items), obj.col))
@@ -1116,7 +1117,8 @@ def value_attr(I, obj, name):
             return ViewVec(obj, lambda x: part(to_expr(x)), obj.col)
         if name == "T":
             if obj.items and all(isinstance(r, Vec) for r in obj.items) and len({len(r) for r in obj.items}) == 1:
-                return Vec(Vec(r.items[j] for r in obj.items) for j in range(len(obj.items[0])))
+                from .symval import TransposeView
+                return TransposeView(obj)
             return obj
         if name == "flags":
             from .symval import VecFlags
@@ -2054,11 +2056,20 @@ def _as_dtype(I, v, dtype, copy):
                 return sp.re(e)
             return e
         return x
+    def tag(r):
+        if isinstance(r, Vec) and kind is not None:
+            try:
+                r.dtype_kind = kind
+            except AttributeError:
+                pass
+        return r
     if isinstance(v, Vec):
         if kind is None and not copy:
             return v
-        return conv(v) if kind is not None else Vec([conv(i) if isinstance(i, Vec) else i for i in v.items], v.col) if copy else v
-    return conv(v)
+        if not copy and kind is not None and getattr(v, "dtype_kind", None) == kind:
+            return v                  # asarray of an array that already has the dtype asked for is that array
+        return tag(conv(v)) if kind is not None else Vec([conv(i) if isinstance(i, Vec) else i for i in v.items], v.col) if copy else v
+    return tag(conv(v))
 
 
 def _math(I, name):
@@ -2369,7 +2380,8 @@ def _numpy_more(I, name):
         def transpose(v, *a):
             v = _tovec(v)
             if isinstance(v, Vec) and v.items and isinstance(v.items[0], Vec):
-                return Vec(Vec(r.items[j] for r in v.items) for j in range(len(v.items[0])))
+                from .symval import TransposeView
+                return TransposeView(v)
             return v
         return transpose
     if name == "arange":
